@@ -408,6 +408,34 @@ let register (reg : string -> (Sx.t list -> Sx.t) -> unit) : unit =
         let a = run now0 and b = run now1 in
         if a = b then L [Y a] else Y "ambiguous"
       | _ -> raise (Bad "serve_request arity"));
+  (* ---- Lifetime: the login's fallbacks and one request at a provider that cannot refresh (seconds) ---- *)
+  reg "redeem_fallbacks" (function
+      | [now; expire; pc; pe] ->
+        let s = Lifetime.redeem_fallbacks (rd_z now) (rd_z expire) (rd_opt rd_z pc) (rd_opt rd_z pe) in
+        L [wr_z s.Lifetime.l_created; wr_opt wr_z s.Lifetime.l_expires]
+      | _ -> raise (Bad "redeem_fallbacks arity"));
+  reg "lifetime_request" (function
+      | [refresh; expire; created; expires; now; valid] ->
+        let s = { Lifetime.l_created = rd_z created; l_expires = rd_opt rd_z expires } in
+        (match Lifetime.request_nonrefreshing (rd_z refresh) (rd_z expire) s (rd_z now) (rd_bool valid) with
+         | None -> Y "refused"
+         | Some s' -> L [Y "honoured"; wr_bool (s'.Lifetime.l_created = rd_z now)])
+      | _ -> raise (Bad "lifetime_request arity"));
+  (* ---- a chain of refreshes at a provider with single-use refresh tokens ---- *)
+  reg "refresh_chain" (function
+      | [flags] ->
+        let s0 = { RefreshChain.t_access = Datatypes.O; t_refresh = Datatypes.O; t_id = Datatypes.O } in
+        (match RefreshChain.chain_run (Datatypes.O, s0) (rd_list rd_bool flags) with
+         | None -> Y "failed"
+         | Some (_, s) -> L [wr_nat s.RefreshChain.t_access; wr_nat s.RefreshChain.t_refresh; wr_nat s.RefreshChain.t_id])
+      | _ -> raise (Bad "refresh_chain arity"));
+  reg "refresh_chain_tokens" (function
+      | [flags] ->
+        let s0 = { RefreshChain.t_access = Datatypes.O; t_refresh = Datatypes.O; t_id = Datatypes.O } in
+        (match RefreshChain.chain_run (Datatypes.O, s0) (rd_list rd_bool flags) with
+         | None -> Y "failed"
+         | Some (_, s) -> L [wr_nat s.RefreshChain.t_access; wr_nat s.RefreshChain.t_refresh])
+      | _ -> raise (Bad "refresh_chain_tokens arity"));
   (* ---- Proxy ---- *)
   reg "proxy_serve" (function
       | [ep; skipb; fjson; bypass; domains; groups; bearer; basic; stored; ajax; api; vg; ve; clearfails] ->
